@@ -75,8 +75,8 @@ def build(ctx, rng, n, with_refund):
     c.seed = rbytes(rng, rng.choice((16, 32)))
     c.seeds = [rbytes(rng, 32) for _ in range(n)]
     c.pks = [sigmsg.pubkey(s) for s in c.seeds]
-    c.fields = [{'sigfield1': rbytes(rng, 12), 'sigfield2': bytes([i])}
-                for i in range(n)]
+    from ..gen import auth as _auth
+    c.fields = [_auth.sigfields(rng) for i in range(n)]
     c.refund = {}
     c.refund_seeds = {}
     if with_refund:
